@@ -78,7 +78,7 @@ def insert_noise(draw, root, n_min=1, n_max=6):
                 el["a"]["xmlns:loc"] = "urn:example:local"  # prefix declared on the element itself
                 el["a"]["loc:note"] = draw(st.sampled_from(["x", "red"]))
             else:
-                el["a"][draw(st.sampled_from(["foo:bar", "sodipodi:nodetypes", "foo:fill"]))] = draw(st.sampled_from(["x", "cccc", "red"]))
+                el["a"][draw(st.sampled_from(["foo:bar", "sodipodi:nodetypes", "foo:fill", "foo:h\u00f6he"]))] = draw(st.sampled_from(["x", "cccc", "red"]))
                 foreign = True
             labels.append("foreign-attr@" + el["tag"])
             continue
@@ -110,7 +110,7 @@ def insert_noise(draw, root, n_min=1, n_max=6):
         if kind == "comment":
             new = node("#comment", {"text": draw(st.sampled_from([" a comment ", "x", " <rect/> ", ""]))})
         elif kind == "pi":
-            new = node("#pi", {"text": draw(st.sampled_from(["xpacket begin='r'", "foo bar", "xml-stylesheet href='a.css'"]))})
+            new = node("#pi", {"text": draw(st.sampled_from(["xpacket begin='r'", "foo bar", "xml-stylesheet href='a.css'", "gr\u00f6\u00dfe x"]))})
         elif kind in ("title", "desc", "metadata"):
             new = node(kind, c=_meta_children(draw))
             foreign = True
@@ -118,7 +118,7 @@ def insert_noise(draw, root, n_min=1, n_max=6):
             kids = [node("rect", {"width": "50", "height": "50", "fill": "blue"})] if draw(st.booleans()) else []
             how = draw(st.integers(0, 2))
             if how == 0:
-                new = node(draw(st.sampled_from(["foo:bar", "sodipodi:namedview"])), {"id": "fe", "fill": "red"}, c=kids)
+                new = node(draw(st.sampled_from(["foo:bar", "sodipodi:namedview", "foo:gr\u00f6\u00dfe"])), {"id": "fe", "fill": "red"}, c=kids)  # XML names may contain non-ASCII letters
                 foreign = True  # prefix declared on the root
             elif how == 1:
                 # namespace prefix declared on the foreign element itself
